@@ -289,6 +289,8 @@ long shim_map_update(struct shim_map *m, const void *key, const void *value, __u
 		}
 		e = add_entry(m, key);
 	}
+	if (m->type == BPF_MAP_TYPE_LPM_TRIE)
+		memcpy(e->key, key, m->key_size);   /* a replaced node takes the new key's trailing bits */
 	memcpy(e->value, value, m->value_size);
 	e->used = ++lru_clock;
 out:
